@@ -103,6 +103,9 @@ def run_check(pid, tier, seed):
     cs = ', '.join('{}={}'.format(k, acc.c[k]) for k in sorted(acc.c))
     if cs:
         print('  counters: ' + cs[:1500])
+    if os.environ.get('VERIF_TIMINGS'):
+        for t, n, p in getattr(acc, 'timings', []):
+            print('  slow task: {:.1f}s {} {}'.format(t, n, str(p)[:200]))
     for line in known_lines:
         print(line)
     for line in vlines:
